@@ -40,12 +40,13 @@ func files(groups ...[]string) []string {
 func allChecks() []*Check {
 	cs := allChecksRaw()
 	for _, c := range cs {
-		if c.ID == "C11" {
+		confirm := map[string]string{"C10": "VerifC10Stress", "C11": "VerifC11Stress"}[c.ID]
+		if confirm != "" {
 			for i := range c.Quick {
-				c.Quick[i].Confirm = "VerifC11Stress"
+				c.Quick[i].Confirm = confirm
 			}
 			for i := range c.Thorough {
-				c.Thorough[i].Confirm = "VerifC11Stress"
+				c.Thorough[i].Confirm = confirm
 			}
 		}
 	}
@@ -86,12 +87,14 @@ func allChecksRaw() []*Check {
 			Quick: []Job{
 				gjf("C03.pairs.n5", "VerifC03", 5, "C03.add", "C03.text", "C03.text.ref", "C03.enc", "C03.walk", "C03.iter", "C03.alias.output", "C03.alias.walk", "C03.alias.iter"),
 				gjf("C03.reject.n3", "VerifC03Reject", 3, "C03.reject.err", "C03.reject.nowrite", "C03.reject.nocallback", "C03.reject.nofs"),
+				gjf("C03.bytes.n5", "VerifC03Bytes", 5, "C03.bytes.nil", "C03.bytes.text", "C03.bytes.ref"),
 			},
 			Thorough: []Job{
-				gjf("C03.pairs.n7", "VerifC03", 7, "C03.add", "C03.text", "C03.text.ref", "C03.enc", "C03.walk", "C03.iter", "C03.alias.output", "C03.alias.walk", "C03.alias.iter"),
+				gjf("C03.bytes.n6", "VerifC03Bytes", 6, "C03.bytes.nil", "C03.bytes.text", "C03.bytes.ref"),
+				gjf("C03.pairs.n6", "VerifC03", 6, "C03.add", "C03.text", "C03.text.ref", "C03.enc", "C03.walk", "C03.iter", "C03.alias.output", "C03.alias.walk", "C03.alias.iter"),
 				gjf("C03.reject.n4", "VerifC03Reject", 4, "C03.reject.err", "C03.reject.nowrite", "C03.reject.nocallback", "C03.reject.nofs"),
 			},
-			Bounds: "programs of NewRoot + (N-1) Add calls (quick N=5, thorough N=7) on solver-chosen parents with names that may coincide; operation pairs From-Root vs From-Markdown: text with 4 opaque branch strings, JSON/YAML/TOML records, callback walk facts, iterator walk; every deprecated alias next to its replacement; nil / non-root arguments on all 10 From-Root entry points. mkdir/verify pairs are decided under C06/C08 (VerifC06Root, VerifC08 both families). Outside: names that are not single path elements (C07), massive mode (C10).",
+			Bounds: "programs of NewRoot + (N-1) Add calls (quick N=5, thorough N=6; N=7 ran clean once in 17 min) on solver-chosen parents with names that may coincide, optionally with a From-Root call between two Adds; operation pairs From-Root vs From-Markdown: text with 4 opaque branch strings, JSON/YAML/TOML records, callback walk facts, iterator walk; every deprecated alias next to its replacement; nil / non-root arguments on all 10 From-Root entry points. Byte level: programs of 5/6 nodes with concrete names and the four branch strings as 0..2 arbitrary ASCII bytes each (code that looks into the branch strings). mkdir/verify pairs are decided under C06/C08 (VerifC06Root, VerifC08 both families). Outside: names that are not single path elements (C07), massive mode (C10).",
 			Assume: append([]string{parseContract, pathContract, fsModel, encStub}, commonAssume...),
 		},
 		{
@@ -126,13 +129,15 @@ func allChecksRaw() []*Check {
 			ID:    "C13",
 			Files: files(filesProg, []string{"gtree/c13.go"}),
 			Quick: []Job{
-				gj("C13.hist.n4", "VerifC13", 4, "C13.add", "C13.fn", "C13.idem", "C13.md", "C13.nil", "C13.end"),
+				gjf("C13.hist.n4", "VerifC13", 4, "C13.add", "C13.fn", "C13.idem", "C13.md", "C13.nil", "C13.end"),
+				gjf("C13.hist.n3.emptynames", "VerifC13", 13, "C13.add", "C13.fn", "C13.idem", "C13.end"),
 			},
 			Thorough: []Job{
-				gj("C13.hist.n5", "VerifC13", 5, "C13.add", "C13.fn", "C13.idem", "C13.md", "C13.nil", "C13.end"),
+				gjf("C13.hist.n5", "VerifC13", 5, "C13.add", "C13.fn", "C13.idem", "C13.md", "C13.nil", "C13.end"),
+				gjf("C13.hist.n4.emptynames", "VerifC13", 14, "C13.add", "C13.fn", "C13.idem", "C13.end"),
 			},
-			Bounds: "sequential histories of N steps (quick 4, thorough 5) plus a final operation on every live tree, over at most two live trees: Add on any node of any tree, creation of the second tree, an unrelated From-Markdown call, a From-Root operation (one kind per history: text, callback walk, iterator walk, JSON) executed twice in a row. Outside: histories split across goroutines (no memory model), mkdir/verify as history steps, longer histories.",
-			Assume: append([]string{parseContract, encStub}, commonAssume...),
+			Bounds: "sequential histories of N steps (quick 4, thorough 5) plus a final operation on every live tree, over at most two live trees: Add on any node of any tree, creation of the second tree, an unrelated From-Markdown call, a From-Root operation (one kind per history: text, callback walk, iterator walk, JSON) executed twice in a row; names are opaque single path elements, in a second job each name may also be the empty string (NewRoot(\"\")/Add(\"\") are legal). Outside: histories split across goroutines (no memory model), mkdir/verify as history steps, longer histories.",
+			Assume: append([]string{parseContract, pathContract, encStub}, commonAssume...),
 		},
 		{
 			ID:    "C14",
@@ -254,10 +259,11 @@ func allChecksRaw() []*Check {
 		},
 		{
 			ID:    "C10",
-			Files: files(filesProg, filesVFS, []string{"gtree/c06.go", "gtree/c08.go", "gtree/c09.go", "gtree/c10.go"}),
+			Files: files(filesProg, filesVFS, []string{"gtree/c06.go", "gtree/c08.go", "gtree/c09.go", "gtree/c10.go", "gtree/c10_native.go"}),
 			Quick: []Job{
 				gjf("C10.n3.fifo", "VerifC10", 3, "C10.err/text", "C10.same/text", "C10.same/json", "C10.same/dryrun", "C10.same/walk", "C10.same/mkdir", "C10.same/verify", "C10.noleak", "C10.end"),
 				{Name: "C10.n2.lifo-lastsel", Pkg: "gtree", Entry: "VerifC10", N: 2, FSModel: true, Sched: "lifo-lastsel", Expect: []string{"C10.err/text", "C10.same/text", "C10.noleak", "C10.end"}},
+				{Name: "C10.text.n3.fifo-wyield", Pkg: "gtree", Entry: "VerifC10", N: 13, FSModel: true, Sched: "fifo-wyield", Expect: []string{"C10.err/text", "C10.same/text", "C10.noleak", "C10.end"}},
 				{Name: "C10.units", Pkg: "gtree", Entry: "VerifC10Units", N: 0, FSModel: true, RealParse: true, Expect: []string{"C10.err.units/same-unit", "C10.err.units/mixed-units"}},
 				gjf("C10.exists", "VerifC10Exists", 0, "C10.exists.simple", "C10.exists.err", "C10.exists.fs/partial"),
 				gjf("C10.reuse.n2", "VerifC10Reuse", 2, "C10.reuse.simple", "C10.reuse.err", "C10.reuse.same", "C10.reuse.end"),
@@ -268,10 +274,12 @@ func allChecksRaw() []*Check {
 				{Name: "C10.n3.lifo", Pkg: "gtree", Entry: "VerifC10", N: 3, FSModel: true, Sched: "lifo", Expect: []string{"C10.same/text", "C10.noleak", "C10.end"}},
 				{Name: "C10.n3.fifo-lastsel", Pkg: "gtree", Entry: "VerifC10", N: 3, FSModel: true, Sched: "fifo-lastsel", Expect: []string{"C10.same/text", "C10.noleak", "C10.end"}},
 				{Name: "C10.n3.lifo-lastsel", Pkg: "gtree", Entry: "VerifC10", N: 3, FSModel: true, Sched: "lifo-lastsel", Expect: []string{"C10.same/text", "C10.noleak", "C10.end"}},
+				{Name: "C10.text.n4.fifo-wyield", Pkg: "gtree", Entry: "VerifC10", N: 14, FSModel: true, Sched: "fifo-wyield", Expect: []string{"C10.err/text", "C10.same/text", "C10.noleak", "C10.end"}},
+				{Name: "C10.text.n4.lifo-wyield", Pkg: "gtree", Entry: "VerifC10", N: 14, FSModel: true, Sched: "lifo-wyield", Expect: []string{"C10.err/text", "C10.same/text", "C10.noleak", "C10.end"}},
 				{Name: "C10.units", Pkg: "gtree", Entry: "VerifC10Units", N: 0, FSModel: true, RealParse: true, Expect: []string{"C10.err.units/same-unit", "C10.err.units/mixed-units"}},
 				gjf("C10.exists", "VerifC10Exists", 0, "C10.exists.simple", "C10.exists.err", "C10.exists.fs/partial"),
 			},
-			Bounds: "documents of N rows (quick 3, thorough 4) from the family: roots as list items or # headings, children indented, one optional blank/whitespace-only row at any position (also leading), one optional malformed row (no bullet, empty text, nested two levels too deep); operations text, JSON, dry-run report, walk, mkdir and verify on the file-system model; the real pipeline (splitter, 10+10+10 workers per stage, errgroup collectors) runs under a deterministic cooperative scheduler: policies FIFO and (N=2 quick, N=3 thorough) LIFO, each with first-ready or last-ready select case. Byte level: two roots whose children are indented by i and j blanks, i,j in 1..4. Pre-existing root with two roots. Worker reuse: ten concrete three-level filler roots followed by a symbolic tail of 2 (quick) / 3 (thorough) rows, because blocks are handed to the ten workers of a stage in turn and per-worker state only matters from the 11th block on. NOT decided: equality under every schedule (e.g. a removed spreader mutex is only seen if an explored policy interleaves two printing workers); data races.",
+			Bounds: "documents of N rows (quick 3, thorough 4) from the family: roots as list items or # headings, children indented, one optional blank/whitespace-only row at any position (also leading), one optional malformed row (no bullet, empty text, nested two levels too deep); operations text, JSON, dry-run report, walk, mkdir and verify on the file-system model; the real pipeline (splitter, 10+10+10 workers per stage, errgroup collectors) runs under a deterministic cooperative scheduler: policies FIFO and (N=2 quick, N=3 thorough) LIFO, each with first-ready or last-ready select case; for text output additionally the write-yield policies (the running goroutine goes to the back of the run queue after every Write on the output: a cooperative stand-in for preemption between printing goroutines, which is what makes a missing spreader lock visible). Byte level: two roots whose children are indented by i and j blanks, i,j in 1..4. Pre-existing root with two roots. Worker reuse: ten concrete three-level filler roots followed by a symbolic tail of 2 (quick) / 3 (thorough) rows, because blocks are handed to the ten workers of a stage in turn and per-worker state only matters from the 11th block on. NOT decided: equality under every schedule; data races.",
 			Assume: append([]string{parseContract, pathContract, fsModel, encStub, "goroutines, channels, select, sync.WaitGroup/Mutex, context and errgroup are engine-native with Go semantics under a run-until-block scheduler (one interpreted goroutine runs at a time); every explored schedule is a legal Go schedule, the converse is not claimed"}, commonAssume...),
 		},
 		{
